@@ -595,3 +595,19 @@ package h2
 //@   modifies dialN, lastDialed, lastDialErr, tls.Conn.gclosed, rdPos, wrPos
 //@   ensures[dials-once] dialN == old(dialN) + 1
 //@   ensures[upstream-closed-on-return] lastDialErr == nil ==> lastDialed != nil && lastDialed.gclosed
+
+// SETTINGS: a value announced by the endpoint this relay reads from describes what that endpoint is prepared to
+// receive, so it governs the relay that WRITES to it, which is the peer relay (C08: header table size; C09: window and
+// frame size). The callback also collects every setting, in order, for forwarding.
+//@ func (*relay).processFrame$1
+//@   serves C08 C09
+//@   requires r != nil && r.peer != nil && !r.peer.decoderMu.held && !r.peer.encoderMu.held && r.peer.decoder != nil && r.peer.encoder != nil
+//@   requires !r.peer.flowMu.held && bufsOK(r.peer) && within(r.peer, 1099511627776)
+//@   modifies settings, settings[*], r.peer.decoderMu.held, r.peer.encoderMu.held, r.peer.maxFrameSize, r.peer.initialWindowSize, r.peer.connectionWindowSize, sentConn, outputBuffer.windowSize, outputBuffer.sentS, list.List.gfront, list.List.glen, r.peer.flowMu.held
+//@   noframe
+//@   at call 0 of updateTableSize before assert[announced-table-size-governs-the-encoder-writing-to-the-announcer] self == r.peer
+//@   at call 0 of updateInitialWindowSize before assert[announced-window-governs-the-relay-sending-to-the-announcer] self == r.peer
+//@   at call 0 of updateMaxFrameSize before assert[announced-frame-size-governs-the-relay-sending-to-the-announcer] self == r.peer
+//@   ensures[every-setting-is-collected-for-forwarding] result == nil && len(settings) == old(len(settings)) + 1 && settings[len(settings) - 1] == s
+//@   ensures[earlier-settings-kept-in-order] forall i int :: 0 <= i && i < old(len(settings)) ==> settings[i] == old(settings[i])
+//@   ensures[locks-released] !r.peer.decoderMu.held && !r.peer.encoderMu.held && !r.peer.flowMu.held
